@@ -12,6 +12,8 @@
     c10.ctor.new <kind> S          (oracle-only on the implementation side) → ok
     c10.ctor.b64 S                 model: OwnedBase64PublicKey::with_bytes (S = raw bytes)
     c10.exh <kind> S ORA           model: `c10.id` on prefix ++ [a, b] for all a, b of the alphabet
+    c10.ctor.secret                (oracle-only on the implementation side) → ok
+    c10.voipver S | iN             VoipVersionId from a string (stored as is) / from an integer (only 0)
     c10.opaque <type> S            unchecked identifier types store any string → ok S
     c10.ip6 S / c10.ip4 S          reference Ipv6Addr / Ipv4Addr parser (Model/IdsIp.lean) → t / f
     c10.ipexh <6|4> S S iK         the same on prefix ++ w for all words w of length K over an alphabet
@@ -243,6 +245,14 @@ def handle (toks : List String) : String :=
         | some f => String.ofList ((wordsOf al k).map (fun w => if f (pre ++ w) then 't' else 'f'))
         | none => "bad-op"
     | _, _, _ => "bad-op"
+  | ["c10.ctor.secret"] => "ok"
+  | ["c10.voipver", v] =>
+    match parseStrTok v, natTok v with
+    | some s, _ => "ok " ++ strTok s
+    | none, some n => (match voipVersionFromUInt n with
+      | .ok r => "ok " ++ strTok r
+      | _ => "err")
+    | none, none => "bad-op"
   | ["c10.opaque", ty, s] =>
     match parseStrTok s with
     | some s =>
